@@ -886,6 +886,43 @@ def run(ck):
             break
     ck.hist("coordinator_rounds", n_e2e)
 
+    # ---------------- 6b. TWO generations on the same Coordinator objects: between them the topics' partition lists
+    #   change (grow / shrink / renumber) and the same member leads again.  What the members receive in the second
+    #   generation must be the proved assignment of THIS generation's partition lists (a leader that reuses what it
+    #   looked up in an earlier generation leaves new partitions without owner / hands out partitions that are gone).
+    rnd6b = random.Random(ck.seed * 7919 + 66)
+    n6b = 0
+    for members, tp in pool6[:60 * scale]:
+        if sum(len(ps) for ps in normal_tp(tp).values()) > 80:
+            continue
+        n6b += 1
+        tp1 = normal_tp(tp)
+        tp_second = second_generation_map(rnd6b, members, tp1)
+        li = 0 if n6b % 2 else rnd6b.randrange(len(members))
+        script = gen_script(rnd6b, sorted(tp1), "echo") if n6b % 3 == 0 else None      # every third round: the real client lookup
+        bad, detail = two_generation_verdict(ck, members, tp1, tp_second, li, script)
+        if bad:
+            def bad6b(a, b):
+                if not e2e_eligible(a, b):
+                    return False
+                b1 = normal_tp(b)
+                b2 = collections.OrderedDict((t, list(tp_second.get(t, ps))) for t, ps in b1.items())
+                if not e2e_eligible(a, b2):
+                    return False
+                return two_generation_verdict(ck, a, b1, b2, li, script)[0] is not None
+            ms, tpa = shrink_input(members, tp1, bad6b)
+            tpa = normal_tp(tpa)
+            tpb = collections.OrderedDict((t, list(tp_second.get(t, ps))) for t, ps in tpa.items())
+            bad2, detail2 = two_generation_verdict(ck, ms, tpa, tpb, li, script)
+            if not bad2:
+                ms, tpa, tpb, bad2, detail2 = members, tp1, tp_second, bad, detail
+            ck.violation(dict(describe_input(ms, tpa), kind="two generations on one Coordinator: the second generation's assignment is not the proved "
+                              "assignment of the partition lists valid in that generation", what=bad2,
+                              second_generation_topic_partitions=[[t, list(ps)] for t, ps in tpb.items()], leader_idx=li, script=script,
+                              replay_op="two_generations", **detail2))
+            break
+    ck.hist("coordinator_two_generation_rounds", n6b)
+
     # ---------------- 7. the REAL KafkaClient._load_topic_partitions against a scripted metadata broker
     #   (audit 3 / 4.1).  Honest brokers (every requested topic echoed; per-topic errors / empty partition lists
     #   before a good answer; unrequested extra topics): the documented snapshot contract is a monitor.
@@ -1305,7 +1342,49 @@ def normal_tp(tp):
     return collections.OrderedDict((t, sorted(set(ps))) for t, ps in tp.items())
 
 
-def e2e_round(members, tp, leader_idx=0, order_seed=None, lookup=None, info=None, public=False):
+def second_generation_map(rnd, members, tp1):
+    """the partition lists of the same topics one generation later: a subscribed topic grows, shrinks or is renumbered"""
+    subscribed = sorted({t for _m, subs in members for t in subs if t in tp1})
+    out = collections.OrderedDict((t, list(ps)) for t, ps in tp1.items())
+    for t in rnd.sample(subscribed, rnd.randint(1, max(1, min(2, len(subscribed))))):
+        ps = list(out[t])
+        how = rnd.random()
+        top = max(ps) if ps else -1
+        if how < 0.5 or len(ps) < 2:
+            ps = ps + [p for p in range(top + 1, top + 1 + rnd.randint(1, 4)) if p <= I32MAX]       # grows
+        elif how < 0.8:
+            ps = ps[:rnd.randint(1, len(ps) - 1)]                                                     # shrinks
+        else:
+            ps = sorted({(p + 1) % 2147483647 for p in ps})                                           # other ids
+        out[t] = ps or [0]
+    return out
+
+
+def two_generation_verdict(ck, members, tp1, tp2, li, script):
+    """(what is wrong or None, detail) for one two-generation round"""
+    info = {}
+    got, err = e2e_round(members, tp1, li, None, lookup=script, info=info, second=tp2)
+    detail = {"error": err, "received_second_generation": repr(got), "received_first_generation": repr(info.get("first_generation")),
+              "lookups": [e["asked"] for e in info.get("lookup_log", [])]}
+    if err:
+        return "round failed: %s" % err, detail
+    want1, want2 = ck_model_decoded(ck, members, tp1), ck_model_decoded(ck, members, tp2)
+    detail["model_second_generation"] = repr(want2)
+    if info.get("first_generation") != want1:
+        return "first generation differs from the proved assignment", detail
+    # the property, restated on what the members received: every partition of every subscribed topic, as listed NOW, exactly once
+    subscribed = {t for _m, subs in members for t in subs}
+    for t in sorted(subscribed):
+        owners = collections.Counter(p for d in got.values() for p in d.get(t, ()))
+        if sorted(owners.elements()) != sorted(tp2.get(t, [])):
+            return ("topic %r: the partitions assigned in the second generation %r are not the topic's current partitions %r"
+                    % (t, sorted(owners.elements()), sorted(tp2.get(t, [])))), detail
+    if got != want2:
+        return "second generation differs from the proved assignment of the current partition lists", detail
+    return None, detail
+
+
+def e2e_round(members, tp, leader_idx=0, order_seed=None, lookup=None, info=None, public=False, second=None):
     """One rebalance of a group whose members are real afkak Coordinator objects talking to a scripted
     group coordinator.  Requests are the bytes the real encoders produce (parsed here independently);
     responses are bytes built here and decoded by the real decoders.
@@ -1316,6 +1395,10 @@ def e2e_round(members, tp, leader_idx=0, order_seed=None, lookup=None, info=None
       info       : dict filled with what the lookup did (requests, snapshot) and whether the leader sent SyncGroup
       public     : drive the public join_and_sync() (whose errback decides between rejoin and log-only) instead of
                    _join_and_sync(); info then says whether anything is left scheduled for the leader afterwards
+      second     : None, or the partition map of a SECOND generation: after the first rebalance completed the
+                   topics' partition lists change to it and every member rejoins (same Coordinator objects, same
+                   leader - what a heartbeat answered REBALANCE_IN_PROGRESS leads to); the return value is then what
+                   the members received in the second generation, info["first_generation"] what they got in the first
     Returns ({member_id: {topic: tuple}} as passed to on_join_complete, error-or-None)."""
     from twisted.internet import defer
     from twisted.internet.task import Clock
@@ -1323,6 +1406,7 @@ def e2e_round(members, tp, leader_idx=0, order_seed=None, lookup=None, info=None
     from afkak.kafkacodec import KafkaCodec
 
     clock = Clock()
+    tp = collections.OrderedDict((t, list(ps)) for t, ps in tp.items())      # private copy: a second generation edits it in place
     received, errors = {}, []
     joined, syncs = [], {}
     state = {"leader_bytes": None}
@@ -1449,6 +1533,24 @@ def e2e_round(members, tp, leader_idx=0, order_seed=None, lookup=None, info=None
             d.addErrback(failed)
         if lookup is not None:
             pump(clock, lambda: bool(errors) or set(received) == set(ids))
+        if second is not None and not errors and set(received) == set(ids):
+            info["first_generation"] = dict(received)
+            tp.clear()
+            tp.update((t, list(ps)) for t, ps in second.items())               # the topics grew / shrank
+            received.clear()
+            del joined[:]
+            syncs.clear()
+            state["leader_bytes"] = None
+            info["leader_sent_sync"] = False
+            info["lookups_before_second_generation"] = len(info["lookup_log"])
+            for c in coords:
+                d = c._join_and_sync()                                         # the rejoin of a rebalance
+
+                def failed2(f, c=c):
+                    errors.append("second generation: " + repr(f.value))
+                d.addErrback(failed2)
+            if lookup is not None:
+                pump(clock, lambda: bool(errors) or set(received) == set(ids))
         for c in coords:
             if c._heartbeat_looper.running:
                 c._heartbeat_looper.stop()
@@ -1480,6 +1582,18 @@ def replay(rp):
     """re-runs the recorded case on the implementation (and the model); 0 = the case passes now, 1 = it still fails"""
     op = rp.get("replay_op")
     print(json.dumps({k: v for k, v in rp.items() if k not in ("traceback",)}, indent=1, default=repr)[:4000])
+    if op == "two_generations":
+        members = [(m, list(s)) for m, s in rp["members"]]
+        tp1 = collections.OrderedDict((t, list(ps)) for t, ps in rp["topic_partitions"])
+        tp2 = collections.OrderedDict((t, list(ps)) for t, ps in rp["second_generation_topic_partitions"])
+
+        class _Ck(object):
+            def model(self, name, cases):
+                return model_now(cases)
+        bad, detail = two_generation_verdict(_Ck(), members, tp1, tp2, rp.get("leader_idx", 0), rp.get("script"))
+        print("two generations now:", json.dumps(detail, indent=1, default=repr)[:3000])
+        print("verdict:", bad or "pass")
+        return 1 if bad else 0
     if op in ("generate", "e2e", "leader_lookup"):
         members = [(m, list(s)) for m, s in rp["members"]]
         tp = collections.OrderedDict((t, list(ps)) for t, ps in rp["topic_partitions"])
